@@ -1102,7 +1102,7 @@ Section Refine.
       destruct (get st c) as [cl|] eqn:Eg; [|exists RNone; split; reflexivity].
       cbn [run_cont exec]. rewrite Eg. destruct (get (cl_consumer cl) g) as [grp|] eqn:Egg; [|exists RNone; split; reflexivity].
       destruct (t =? 0); [exists RNone; split; reflexivity|].
-      cbn [run_cont exec]. rewrite Eg, Egg. destruct (remove (g_topics grp) t); exists RNone; split; reflexivity.
+      cbn [run_cont exec]. rewrite Eg, Egg. destruct (remove (g_topics grp) t); [destruct (get (g_topics grp) t)|]; exists RNone; split; reflexivity.
     - (* FetchClusters *)
       exists 0%nat. intros fuel _. unfold run_alone. cbn [start]. eexists. split; [reflexivity | apply reply_equiv_refl].
     - (* FetchConsumers *)
